@@ -363,6 +363,7 @@ inductive Ev where
   | drop (g : Nat)             -- del gen; gc.collect(): as close(), exceptions are swallowed
   | throw (g : Nat) (e : PyExc)
   | setDisabled (b : Bool)     -- the server's pull capability changes
+  | removeNs (ns : Nat)        -- a namespace is removed on the server (its open enumerations stay in the table)
   deriving Repr
 
 def setAt {α} (f : Nat → α) (i : Nat) (v : α) : Nat → α := fun j => if j = i then v else f j
@@ -389,6 +390,8 @@ def stepW (w : World) (ev : Ev) : World × Res :=
     ({ w with conn := r.1, gens := setAt w.gens g r.2.1 }, r.2.2)
   | .setDisabled b =>
     ({ w with conn := { w.conn with srv := { w.conn.srv with disabled := b } } }, .ok)
+  | .removeNs ns =>
+    ({ w with conn := { w.conn with srv := { w.conn.srv with nss := w.conn.srv.nss.filter (· != ns) } } }, .ok)
 
 def runW (w : World) : List Ev → World × List Res
   | [] => (w, [])
